@@ -154,7 +154,7 @@ func topologyUnderTraffic(c *Ctx, rep int) {
 	bed.OnHook(nil)
 	// a quarter of the requests is answered UNAVAILABLE on its first attempt (the plan is walked on, later), and the answers
 	// of some are withheld across the topology steps
-	var holdNow int32
+	var holdNow, burst int32
 	bed.Cluster.SetScript(func(a *fakecass.Arrival) fakecass.Outcome {
 		if a.Token == "" || a.N > 1 {
 			return fakecass.Outcome{}
@@ -183,7 +183,10 @@ func topologyUnderTraffic(c *Ctx, rep int) {
 				select {
 				case <-stop:
 					return
-				case <-time.After(time.Duration(1+i%3) * time.Millisecond):
+				default:
+				}
+				if atomic.LoadInt32(&burst) == 0 || i%2 == 1 { // half of the clients drop their pacing while a topology event is being applied
+					time.Sleep(time.Duration(1+i%3) * time.Millisecond)
 				}
 				switch (k + i) % 8 {
 				case 1:
@@ -217,9 +220,12 @@ func topologyUnderTraffic(c *Ctx, rep int) {
 		}
 		atomic.StoreInt32(&holdNow, 1) // retry-next answers are withheld from now on ...
 		time.Sleep(10 * time.Millisecond)
+		atomic.StoreInt32(&burst, 1) // plans are drawn and walked at the highest rate while the load balancer's host list is replaced
 		bed.Cluster.Emit(&message.TopologyChangeEvent{ChangeType: ct, Address: &primitive.Inet{Addr: net.ParseIP(bed.Cluster.HostIP(host)), Port: int32(bed.Cluster.Port)}})
 		waitFor(func() bool { return peers() > before }, 5*time.Second)
-		time.Sleep(30 * time.Millisecond)
+		time.Sleep(10 * time.Millisecond)
+		atomic.StoreInt32(&burst, 0)
+		time.Sleep(20 * time.Millisecond)
 		atomic.StoreInt32(&holdNow, 0) // ... and arrive after the change has been applied: plans drawn before it are walked on
 		bed.Cluster.ReleaseHeld(nil)
 		time.Sleep(30 * time.Millisecond)
